@@ -74,6 +74,8 @@ pub enum Op {
     /// move the clock to the expiry edge of the k-th time:N frame, plus delta ms (never backwards)
     TickToEdge { k: usize, delta: i64 },
     ClockBack { ms: u64 },
+    /// flush, then merge all segments of every partition (shadowed versions and tombstones go)
+    Compact,
     GcStep,
     GcDrain,
     Flush,
@@ -402,8 +404,11 @@ pub fn generate(seed: u64, cfg: &GenCfg) -> Plan {
             10 => Op::GcDrain,
             11 => {
                 flushes += 1;
-                if flushes > 2 {
+                if flushes > 3 {
                     Op::GcStep
+                } else if flushes == 2 || flushes == 3 {
+                    // a second flushed segment, then a major compaction of every partition
+                    Op::Compact
                 } else {
                     Op::Flush
                 }
@@ -950,6 +955,17 @@ impl Exec {
                 }
                 if self.store().verif_journal_count() > 1 {
                     self.w.probe("layout:multi-journal");
+                }
+            }
+            Op::Compact => {
+                self.store().verif_flush().map_err(|e| Stop::Harness(format!("flush: {}", e)))?;
+                self.flushed = true;
+                let before = self.store().verif_segment_count();
+                self.store().verif_compact().map_err(|e| Stop::Harness(format!("compact: {}", e)))?;
+                let after = self.store().verif_segment_count();
+                self.w.probe("layout:compacted");
+                if after < before {
+                    self.w.probe("layout:compaction-merged-segments");
                 }
             }
             Op::Reopen { crash } => self.reopen(&what, *crash)?,
